@@ -8,5 +8,5 @@ mkdir -p $W/repo-$s
 rsync -a --delete --exclude target --exclude .git /repo/ $W/repo-$s/
 (cd $W/repo-$s && d=/verif/seeded/$s; [ -d $d ] || d=/var/tmp/seed-stage/$s; patch -p1 -s < $d/patch.diff)
 cd /verif
-VERIF_WORK=$W/work-$s VERIF_REPO=$W/repo-$s VERIF_EVIDENCE_DIR=$W/ev ./check "$@" 2>&1 | grep -E -A3 "VIOLATION|UNDECIDED|BROKEN|discharged|KNOWN" | cut -c1-2400
+VERIF_WORK=$W/work-$s VERIF_REPO=$W/repo-$s VERIF_EVIDENCE_DIR=$W/ev ./check "$@" 2>&1 | grep -E -A4 "VIOLATION|UNDECIDED|BROKEN|discharged|KNOWN" | cut -c1-2400
 rm -rf $W/repo-$s
